@@ -3,7 +3,9 @@ package c19
 import (
 	"fmt"
 	"reflect"
+	"runtime"
 	"sort"
+	"strings"
 
 	"github.com/mattn/anko/env"
 	_ "github.com/mattn/anko/packages" // fills env.Packages / env.PackageTypes
@@ -228,6 +230,26 @@ func checkTables(c *common.Ctx, res *common.Result) {
 		}
 	}
 	sort.Strings(stale)
+	// keys the generated reference does not know (added after it was generated): a
+	// function entry can still be judged by the symbol its code pointer belongs to -
+	// it must be the function of the package that the key names
+	for _, p := range pkgs {
+		for k, stored := range env.Packages[p] {
+			if _, ok := ref["V|"+p+"|"+k]; ok || !stored.IsValid() || stored.Kind() != reflect.Func {
+				continue
+			}
+			fn := runtime.FuncForPC(stored.Pointer())
+			if fn == nil {
+				continue
+			}
+			name, want := fn.Name(), p+"."+k
+			res.Add("evaluations", 1)
+			res.Add("table_unreferenced_funcs_judged_by_symbol", 1)
+			if name != want && strings.HasPrefix(name, p+".") && !strings.ContainsAny(name[len(p)+1:], ".()") {
+				res.Violate(common.Violation{Class: "table/func-name", Case: want, Detail: fmt.Sprintf("the entry %s holds the function %s", want, name), Replay: rcase{Space: "table", Fn: p}})
+			}
+		}
+	}
 	if len(unref) > 0 {
 		res.Add("table_unreferenced", int64(len(unref)))
 		res.Note(fmt.Sprintf("table keys without a generated reference (regenerate props/c19/tables_gen.go): %v", unref))
